@@ -59,7 +59,7 @@ enum = _c + (
     pp.CaselessLiteral('enum')
     - enum_name + _
     - '{'
-    + enum_body('items') + n
+    + enum_body('items') + n + _
     - '}'
 ) + end
 
